@@ -391,6 +391,7 @@ def check(run):
         run.count('err_' + str(o['err']))
     check_connect_shapes(run)
     check_start_shapes(run)
+    check_duplicate_names(run)
 
 
 # wrongly shaped inputs: what connect() itself must refuse, and what it must accept and store
@@ -446,6 +447,69 @@ def check_connect_shapes(run, only=None):
                           f"{'acceptance with inputs ' + str(expect) if isinstance(expect, dict) else getattr(expect, '__name__', expect)}, observed "
                           f"exception {obs['raised']} and stored inputs {obs['inputs']}",
                           clause='connect_shape:' + name, concrete=True)
+
+
+def check_duplicate_names(run, only=None):
+    """'duplicate names ... make construction or the start fail with an error': a second block of a
+    name that exists already - given explicitly or generated automatically (two classes of the same
+    class name created without a name) - is refused, and the circuit keeps the first one."""
+    def same_named_classes():
+        def mk():
+            class Scale(edzed.FuncBlock):
+                pass
+            return Scale
+        return mk(), mk()
+
+    def explicit_same_class():
+        return edzed.Input('dup', initdef=0), (lambda: edzed.Input('dup', initdef=1))
+
+    def explicit_other_class():
+        return edzed.Input('dup', initdef=0), (lambda: edzed.Not('dup'))
+
+    def automatic_same_class_name():
+        a, b = same_named_classes()
+        return a(None, func=lambda x: x), (lambda: b(None, func=lambda x: x))
+
+    def automatic_same_class_name_sblocks():
+        def mk():
+            class Store(edzed.Input):
+                pass
+            return Store
+        a, b = mk(), mk()
+        return a(None, initdef=0), (lambda: b(None, initdef=1))
+    for name, scenario in (('explicit_same_class', explicit_same_class), ('explicit_other_class', explicit_other_class),
+                           ('automatic_same_class_name', automatic_same_class_name),
+                           ('automatic_same_class_name_sblocks', automatic_same_class_name_sblocks)):
+        if only is not None and name != only:
+            continue
+        obs = dict(second=None, kept_first=None, count=None, harness=None)
+        edzed.reset_circuit()
+        try:
+            circuit = edzed.get_circuit()
+            first, second = scenario()
+            try:
+                blk = second()
+                obs['second'] = ['created', blk.name]
+            except Exception as err:       # noqa
+                obs['second'] = ['refused', type(err).__name__]
+            found = [b for b in circuit.getblocks() if b.name == first.name]
+            obs['count'] = len(list(circuit.getblocks()))
+            obs['kept_first'] = len(found) == 1 and found[0] is first
+        except BaseException as err:       # noqa
+            obs['harness'] = repr(err)[:200]
+        finally:
+            edzed.reset_circuit()
+        run.add_case(dict(duplicate_name=name), True)
+        run.count('duplicate_name')
+        ok = (obs['harness'] is None and obs['second'] is not None and obs['second'][0] == 'refused'
+              and obs['kept_first'] is True and obs['count'] == 1)
+        run.add_obligation(ok)
+        if not ok:
+            run.violation('monitor', dict(case=dict(duplicate_name=name), observed=obs),
+                          f"second block with the name of an existing one ({name}): {obs['second']} (expected "
+                          f"'refused'), the circuit still holds exactly the first block: {obs['kept_first']} "
+                          f"({obs['count']} block(s)); harness: {obs['harness']}",
+                          clause='duplicate_name:' + name, concrete=True)
 
 
 def _start_shape_cases():
@@ -578,6 +642,8 @@ def replay(run, path):
     _, case = common.load_replay_case(path)
     if isinstance(case, dict) and 'connect_shape' in case:
         return common.directed_replay(run, path, lambda: check_connect_shapes(run, case['connect_shape']))
+    if isinstance(case, dict) and 'duplicate_name' in case:
+        return common.directed_replay(run, path, lambda: check_duplicate_names(run, case['duplicate_name']))
     if isinstance(case, dict) and 'start_shape' in case:
         return common.directed_replay(run, path, lambda: check_start_shapes(run, case['start_shape']))
     return common.std_replay(run, C15(), path)
